@@ -18,7 +18,8 @@ libfuzzer_sys::fuzz_target!(|data: &[u8]| {
         Some(c) => c,
         None => return,
     };
-    let mode = stoseq::Mode { diff_tag: "C04", check_events: true, fault_at: None, bomb: stoseq::Bomb::None };
+    let ledger_only = props().first().map(|p| p == "C08").unwrap_or(false);
+    let mode = stoseq::Mode { diff_tag: "C04", check_events: !ledger_only, fault_at: None, bomb: stoseq::Bomb::None, ledger_only, events_only: false };
     let r = engine::guard("PANIC", || stoseq::run_case_dyn(&c, &mode));
     match r {
         Ok(f) => record(&c, f.remove_or_drain_then_insert && f.distinct_indices >= 3),
